@@ -125,9 +125,11 @@ def loggableRequest (r : Req) (creds : Bool) : List Field :=
 inductive Route where
   | respond      -- a handler writes the response
   | fail         -- a handler returns an error (plain or HandlerError)
-  | proxyOk      -- reverse_proxy, the round trip succeeds
+  | proxyOk      -- reverse_proxy, the round trip succeeds (a normal response, a response handled by handle_response
+                 -- routes, or 101 Switching Protocols: the upgrade path logs no further header object)
   | proxyErr     -- reverse_proxy, the round trip fails
   | fcgiErr      -- reverse_proxy with the fastcgi transport: its own "roundtrip" debug entry, then the dial fails
+  | proxyRetry   -- reverse_proxy, the first round trip fails and is retried, the second succeeds
 deriving DecidableEq, Repr
 
 structure Scn where
@@ -164,6 +166,11 @@ def proxyEntries (s : Scn) : List Entry :=
      ⟨str "http.handlers.reverse_proxy", str "headers", loggableHeader s.tUp s.creds⟩]
   | .proxyErr =>
     [⟨str "http.handlers.reverse_proxy", str "request>headers", loggableHeader s.tOut s.creds⟩]
+  | .proxyRetry =>
+    -- one "upstream roundtrip" entry per attempt: the failed one without, the successful one with the response headers
+    [⟨str "http.handlers.reverse_proxy", str "request>headers", loggableHeader s.tOut s.creds⟩,
+     ⟨str "http.handlers.reverse_proxy", str "request>headers", loggableHeader s.tOut s.creds⟩,
+     ⟨str "http.handlers.reverse_proxy", str "headers", loggableHeader s.tUp s.creds⟩]
   | .fcgiErr =>
     -- fastcgi.go:141  `LoggableHTTPRequest{Request: r, ShouldLogCredentials: logCreds}` logged before dialing
     [⟨str "http.reverse_proxy.transport.fastcgi", str "request>headers", loggableHeader s.tOut s.creds⟩,
